@@ -291,17 +291,13 @@ def handle : Handler := fun op args impl =>
   | "detmulti", _ => some (sameVerdict impl "multi-alignment-input-differs-from-alignments-one-by-one")
   | "cli_seeded", stdin :: argv => do
     let rows := parseFasta (stdin.splitOn "|")
-    let n := rows.length
     let L : Nat := Spec.width rows
     let out : Option String :=
       match argv with
       | ["shuffle", "seqs", "--seed", s] => do
         let s ← parseInt? s
         pure ("rc=0 out=" ++ fasta (runCmd (shuffleSequences rows) s 0))
-      | ["sample", "seqs", "-n", k, "-s", m, "--seed", s] => do
-        let s ← parseInt? s; let k ← parseInt? k; let m ← m.toNat?
-        if k < 1 || k > n then pure "rc=1 out=" else
-        pure ("rc=0 out=" ++ String.join ((runCmd (replM m (sampleRows k.toNat rows)) s 0).map fasta))
+      -- (`sample seqs -n k -s m --seed s` is decided by `seededFlags`, which also knows that no sample means no error)
       | ["sample", "sites", "-l", len, "--seed", s] => do
         let s ← parseInt? s; let len ← parseInt? len
         if len > L || len ≤ 0 then pure "rc=1 out=" else
